@@ -290,8 +290,12 @@ where
                     Expr::Ident(ident.clone())
                 }
             }
-            JSXElementName::JSXMemberExpr(expr) => Expr::JSXMember(expr.clone()),
-            JSXElementName::JSXNamespacedName(name) => Expr::JSXNamespacedName(name.clone()),
+            JSXElementName::JSXMemberExpr(expr) => jsx_member_to_expr(expr),
+            // `<svg:rect>`: the tag is the qualified name
+            JSXElementName::JSXNamespacedName(name) => Expr::Lit(Lit::Str(quote_str!(format!(
+                "{}:{}",
+                name.ns.sym, name.name.sym
+            )))),
         }
     }
 
@@ -1479,6 +1483,22 @@ where
             Expr::Lit(Lit::Str(quote_str!(name.sym.clone()))),
         );
     }
+}
+
+/// `<a.b.C>` denotes the member expression `a.b.C` (and `<this.C>` denotes `this.C`).
+fn jsx_member_to_expr(member: &JSXMemberExpr) -> Expr {
+    let obj = match &member.obj {
+        JSXObject::Ident(ident) if ident.sym == "this" => {
+            Expr::This(ThisExpr { span: ident.span })
+        }
+        JSXObject::Ident(ident) => Expr::Ident(ident.clone()),
+        JSXObject::JSXMemberExpr(member) => jsx_member_to_expr(member),
+    };
+    Expr::Member(MemberExpr {
+        span: member.span,
+        obj: Box::new(obj),
+        prop: MemberProp::Ident(member.prop.clone()),
+    })
 }
 
 /// `Fragment`, `_Fragment`, `Fragment2`, ... take an array of children, never slots
